@@ -23,7 +23,12 @@ import (
 )
 
 type scenario struct {
-	Name   string
+	Name string
+	// Repl: active/passive replication + erasure-coded blobs; Tasks: TaskRunner tasks are scheduler threads.
+	Repl, Tasks bool
+	// Bound0: deviation bound 0 in quick (only the zero-cost alternatives: who runs next whenever the running thread
+	// ended, sleeps or waits for its tasks), 1 in thorough; default is 1 in quick and 2 in thorough.
+	Bound0 bool
 	Stores []txn.StoreSpec
 	Progs  []txn.Prog
 }
@@ -63,6 +68,14 @@ func scenarios(thorough bool) []*scenario {
 		{Name: "two-stores-opposite-order", Stores: []txn.StoreSpec{st("a", 4, "node", 1, "x"), st("b", 4, "active", 1, "y")},
 			Progs: []txn.Prog{W("T1", op("update", "a", 1, "t1"), op("update", "b", 1, "t1")), W("T2", op("update", "b", 1, "t2"), op("update", "a", 1, "t2"))}},
 	}
+	// replication + erasure coding: phase 2 fans out into concurrent tasks (registry / store-info replication,
+	// priority-log removal, commit-change log) and the blob store into one task per shard
+	s = append(s,
+		&scenario{Name: "repl-free-two-writers-split", Repl: true, Tasks: true, Stores: []txn.StoreSpec{st("a", 2, "segment", 1, "x", 2, "y")},
+			Progs: []txn.Prog{W("T1", op("add", "a", 3, "t1"), op("update", "a", 1, "u1")), W("T2", op("add", "a", 4, "t2"))}},
+		&scenario{Name: "repl-free-writer-vs-reader", Repl: true, Tasks: true, Stores: []txn.StoreSpec{st("a", 4, "node", 1, "x", 2, "y"), st("b", 4, "active", 1, "y")},
+			Progs: []txn.Prog{W("T1", op("update", "a", 1, "n"), op("update", "b", 1, "m")), R("R", op("get", "a", 1), op("get", "b", 1))}},
+	)
 	if thorough {
 		s = append(s, &scenario{Name: "three-writers", Stores: []txn.StoreSpec{st("a", 2, "node", 1, "x", 2, "y", 3, "z")},
 			Progs: []txn.Prog{W("T1", op("rmw", "a", 1, "+1")), W("T2", op("add", "a", 4, "t2")), W("T3", op("remove", "a", 3))}})
@@ -128,6 +141,7 @@ func main() {
 		sc := scs[si]
 		l2x.NoSync = true
 		detuuid.NoSync = true
+		sopenv.Replicated = sc.Repl
 		defer sopenv.Cleanup()
 		sopenv.FreshDir(1)
 		if err := txn.Build(sopenv.Bg, sc.Stores); err != nil {
@@ -140,7 +154,7 @@ func main() {
 		for _, s := range sc.Stores {
 			names = append(names, s.Name)
 		}
-		rs := &rsched.Scenario{Classes: []string{"l2", "dio", "file"}, Epoch: epoch,
+		rs := &rsched.Scenario{Classes: []string{"l2", "dio", "file"}, Epoch: epoch, TaskThreads: sc.Tasks,
 			Setup: func(x *rsched.X) []func(ctx context.Context) {
 				sopenv.Restore(2)
 				e := &env{recs: make([]*txn.Record, len(sc.Progs))}
@@ -158,6 +172,9 @@ func main() {
 		bound := 1
 		if thorough {
 			bound = 2
+		}
+		if sc.Bound0 {
+			bound--
 		}
 		deadline := time.Now().Add(10 * time.Minute)
 		if thorough {
